@@ -167,7 +167,11 @@ class LocalDirectoryContext(Context):
                     relative_to_path = Path(os.path.relpath(absolute_to_path, from_path.parent))
                 else:
                     relative_to_path = absolute_to_path
-                create_directory_symlink(from_path, relative_to_path)
+                try:
+                    create_directory_symlink(from_path, relative_to_path)
+                except FileExistsError:
+                    # NOTE: Another process stored a model under this name since the test above
+                    pass
 
     def retrieve_key(self, name: str) -> ModelHash:
         symlink_path = self._models_path / name
